@@ -24,9 +24,9 @@ NOT_APPLICABLE = {
 CHECKS["C03"] = dict(
     jobs=[
         dict(pkg="pkg/nack", entry="HC03LogHistory", params=dict(adds=3, jump=4, back=70, size=64),
-             thorough=dict(params=dict(adds=4, jump=4, back=70), timeout=3000)),
+             thorough=dict(params=dict(adds=4, jump=4, back=70), flags=["-qtimeout", "600000"], timeout=3000)),
         dict(pkg="pkg/nack", entry="HC03MissingScan", params=dict(maxd=8, size=64),
-             thorough=dict(params=dict(maxd=10), timeout=3000)),
+             thorough=dict(params=dict(maxd=10), flags=["-qtimeout", "600000"], timeout=3000)),
     ] + [dict(pkg="pkg/nack", entry="HC03Interceptor", params=dict(maxnacks=m, ticks=2), require_covers=["nack sent"], no_native=True) for m in (0, 1, 2)],
     bounds=dict(quick="receiveLog size 64; histories from the constructor: 3 adds, forward jumps <=4, backward <=70 (older than window included), any base incl. wrap; state-level oracle (bitmap == reference set on the whole window, cursor = end of gap-free prefix). missingSeqNumbers from an ARBITRARY bitmap/end state with cursor distance <=8, skipLastN 0..5. Interceptor level: generator (size 64) with two NACK-negotiated streams and one not negotiated, a fixed small arrival pattern per stream with one case-split offset and one failing read, 2 ticks fired by the harness + one after unbinding a stream, per-packet limit 0/1/2: NACK contents per tick and stream == reference missing set, limit honoured, nothing for the non-negotiated or unbound stream.",
                 thorough="4 adds; cursor distance <=10"),
